@@ -1,6 +1,7 @@
 package main
 
 import (
+	"encoding/json"
 	"fmt"
 	"os"
 	"runtime/debug"
@@ -31,6 +32,8 @@ func main() {
 		cmdTerms(os.Args[2:])
 	case "check":
 		os.Exit(cmdCheck(os.Args[2:]))
+	case "replay":
+		os.Exit(cmdReplay(os.Args[2:]))
 	default:
 		usage()
 	}
@@ -189,4 +192,58 @@ func cmdTerms(args []string) {
 			}
 		}
 	}
+}
+
+// cmdReplay re-evaluates the obligation recorded in a replay file against the current tree.
+func cmdReplay(args []string) int {
+	repo := "/repo"
+	var path string
+	for i := 0; i < len(args); i++ {
+		if args[i] == "--repo" {
+			i++
+			repo = args[i]
+		} else {
+			path = args[i]
+		}
+	}
+	if path == "" {
+		usage()
+	}
+	b, err := os.ReadFile(path)
+	if err != nil {
+		fmt.Fprintln(os.Stderr, "cannot read", path, err)
+		return 2
+	}
+	var f report.Finding
+	if err := json.Unmarshal(b, &f); err != nil {
+		fmt.Fprintln(os.Stderr, "not a replay file:", err)
+		return 2
+	}
+	check, ok := rules.Checks[f.Property]
+	if !ok {
+		fmt.Fprintln(os.Stderr, "no check for", f.Property)
+		return 2
+	}
+	p, err := load.Load(repo, check.NeedSSA)
+	if err != nil {
+		fmt.Println("CHECK-BROKEN:", err)
+		return 2
+	}
+	run := report.NewRun(f.Property, "quick")
+	check.Fn(rules.NewCtx(p, "quick", run))
+	fmt.Printf("replaying %s  rule=%s site=%s detail=%s\n", f.Property, f.Rule, f.Site, f.Detail)
+	for _, g := range run.Findings {
+		if g.Rule == f.Rule && g.Site == f.Site && g.Detail == f.Detail {
+			fmt.Printf("REPRODUCED at %s\n  %s\n", g.Pos, g.Message)
+			for _, d := range g.Derivation {
+				fmt.Println("   ", d)
+			}
+			if len(g.Witness) > 0 {
+				fmt.Println("  witness:", g.Witness)
+			}
+			return 1
+		}
+	}
+	fmt.Println("not reproduced on the current tree (the obligation is discharged or the construct is gone)")
+	return 0
 }
